@@ -96,6 +96,11 @@ func (fc *FnCtx) doCall(c *ssa.CallCommon, args []Val, at ssa.Value, rt types.Ty
 		return v, nil
 	}
 	fc.noteCall(name)
+	if fc.parent == nil && fc.con != nil && len(fc.con.Lemmas) > 0 {
+		if err := fc.lemmasBefore(c); err != nil {
+			return nil, err
+		}
+	}
 	// 1. contracts (modular)
 	var con *Contract
 	if c.IsInvoke() {
@@ -174,7 +179,7 @@ func effectFree(name string) bool {
 		"strings.", "math.", "unicode.", "encoding/hex.", "(context.Context).", "context.", "math/rand.", "sort.Search", "(github.com/google/uuid.UUID).String",
 		"(github.com/tokenized/pkg/bitcoin.Hash32).String", "(*github.com/tokenized/pkg/bitcoin.Hash32).String", "(*math/big.Int).Text", "(*math/big.Int).String",
 		"github.com/google/uuid.New", "(*github.com/tokenized/threads.", "github.com/tokenized/threads.", "net.", "(net.", "(*net.", "os.", "(*sync.WaitGroup).",
-		"runtime.", "(*sync.Once).", "(*bytes.Buffer).", "(*bytes.Reader).", "bytes.", "crypto/", "(crypto/", "hash.", "unicode/utf8.", "(*github.com/tokenized/threads.WaitingBuffer).", "(net.IP).", "(*math/rand.", "github.com/tokenized/pkg/wire.New", "github.com/tokenized/pkg/wire.VarIntSerializeSize", "(*github.com/tokenized/pkg/wire.MsgTx).SerializeSize"} {
+		"runtime.", "(*sync.Once).", "(*bytes.Buffer).", "(*bytes.Reader).", "bytes.", "crypto/", "(crypto/", "hash.", "unicode/utf8.", "(*github.com/tokenized/threads.WaitingBuffer).", "(net.IP).", "(*math/rand.", "github.com/tokenized/pkg/wire.New", "error.Error", "github.com/tokenized/pkg/wire.VarIntSerializeSize", "(*github.com/tokenized/pkg/wire.MsgTx).SerializeSize"} {
 		if strings.HasPrefix(name, p) {
 			return true
 		}
@@ -574,6 +579,7 @@ func (fc *FnCtx) modTargets(items []ast.Expr, se *SpecEnv) ([]modTarget, error) 
 				}
 				add("CN.sent", arraySort("Int"), p.T)
 				add("CN.recvd", arraySort("Int"), p.T)
+				add("CN.closed", arraySort("Bool"), p.T)
 				add("CL."+typeKey(ct.Elem()), arraySort(arraySort(fc.sortStr(ct.Elem()))), p.T)
 			case "allof":
 				// allof(T.f): the whole component of field f of struct type T; allof(elems([]T)) not needed so far
@@ -1418,4 +1424,41 @@ func byReferenceArg(a Val) bool {
 		return true
 	}
 	return false
+}
+
+// lemmasBefore proves and then assumes the contract's `lemma ... before F` clauses at a direct call of F.
+func (fc *FnCtx) lemmasBefore(c *ssa.CallCommon) error {
+	callee := c.StaticCallee()
+	if callee == nil {
+		return nil
+	}
+	for i, lm := range fc.con.Lemmas {
+		match := false
+		for _, f := range lm.Before {
+			if f == callee {
+				match = true
+			}
+		}
+		if !match {
+			continue
+		}
+		se := fc.specEnv(fc.con.PkgPath, fc.cur, fc.entry)
+		for k, v := range fc.paramVars {
+			se.vars[k] = v
+		}
+		for k, v := range fc.letVals {
+			se.vars[k] = v
+		}
+		t, err := se.boolExpr(lm.Expr)
+		if err != nil {
+			return fmt.Errorf("%s: lemma: %v", lm.Pos, err)
+		}
+		fc.vc.oblige(&Obligation{Name: fc.uniq(fmt.Sprintf("%s/lemma[%s]@before:%s", shortName(fc.fn), clauseLabel(lm.Clause, i), shortCallee(callee.String()))), Kind: "lemma",
+			Props: lm.Tags, Func: shortName(fc.fn), Guard: fc.cur.reach, Goal: t, Desc: lm.Src})
+		fc.vc.curKind = 'L'
+		fc.vc.assume(fc.cur.reach, t)
+		fc.vc.curKind = 0
+		fc.vc.hasLemmas = true
+	}
+	return nil
 }
